@@ -701,6 +701,7 @@ impl Journal {
 	/// Record the case about to be executed: index, then `class \x01 witness`
 	#[inline]
 	pub fn note(&self, idx: u64, class: &str, witness: &str) {
+		CASE_SEQ.fetch_add(1, std::sync::atomic::Ordering::Relaxed);
 		if self.ptr.is_null() {
 			return;
 		}
@@ -728,6 +729,28 @@ impl Journal {
 		// SAFETY: ptr maps JOURNAL_SIZE bytes
 		unsafe { std::ptr::copy_nonoverlapping(0u32.to_le_bytes().as_ptr(), self.ptr.add(8), 4) };
 	}
+}
+
+static CASE_SEQ: std::sync::atomic::AtomicU64 = std::sync::atomic::AtomicU64::new(0);
+/// Per-case time limit for termination properties: if no new case is journalled for `limit_s` seconds the worker
+/// aborts; the coordinator then attributes the death to the journalled case (class "process-death"), skips it and goes on.
+pub fn start_watchdog(limit_s: u64) {
+	std::thread::spawn(move || {
+		let mut last = CASE_SEQ.load(std::sync::atomic::Ordering::Relaxed);
+		let mut since = Instant::now();
+		loop {
+			std::thread::sleep(std::time::Duration::from_millis(250));
+			let now = CASE_SEQ.load(std::sync::atomic::Ordering::Relaxed);
+			if now != last {
+				last = now;
+				since = Instant::now();
+			} else if last > 0 && since.elapsed().as_secs() >= limit_s {
+				eprintln!("WATCHDOG: the journalled case did not finish within {limit_s} s (hang)");
+				// SAFETY: plain process abort
+				unsafe { libc::abort() };
+			}
+		}
+	});
 }
 
 pub fn limit_memory(bytes: u64) {
